@@ -326,13 +326,17 @@ func (tnc *TNC) runControlLoop() error {
 }
 
 func (tnc *TNC) eof() {
-	if tnc.data != nil {
-		close(tnc.dataIn)       // Signals EOF to pending reads
-		tnc.data.signalClosed() // Signals EOF to pending writes
-		tnc.connected = false   // connect() is responsible for setting it to true
-		tnc.dataIn = make(chan []byte, 4096)
-		tnc.data = nil
+	if tnc.data == nil && !tnc.connected {
+		return
 	}
+
+	close(tnc.dataIn) // Signals EOF to pending reads
+	if tnc.data != nil {
+		tnc.data.signalClosed() // Signals EOF to pending writes
+	}
+	tnc.connected = false // The control loop sets it to true on CONNECTED
+	tnc.dataIn = make(chan []byte, 4096)
+	tnc.data = nil
 }
 
 // Ping checks the TNC connection for errors
